@@ -111,6 +111,44 @@ RGroups(ts, i, acc) ==
 Reading(ts) == RGroups(ts, 1, <<>>)
 WellFormed(ts) == Reading(ts).ok
 
+(***************************************************************************)
+(* Is a token sequence (without its terminating marker) a *prefix* of some *)
+(* well-formed stream?  Where it is not, a parser may legitimately reject  *)
+(* the stream at the offending token - before it ever reaches a later      *)
+(* non-tag byte or the end of the octets - so the properties fix the error *)
+(* (InvalidTag / UnexpectedEof) only for grammatical prefixes.             *)
+(* State of the fold: g group opened, a attribute open (additional values  *)
+(* allowed), names of the current group, stack of member states of the     *)
+(* open collections ("none" no member yet, "named" name without value,     *)
+(* "valued" member has a value).                                           *)
+(***************************************************************************)
+PFail == [ok |-> FALSE, g |-> FALSE, a |-> FALSE, names |-> {}, st |-> <<>>]
+PStart == [ok |-> TRUE, g |-> FALSE, a |-> FALSE, names |-> {}, st |-> <<>>]
+PTop(s) == s.st[Len(s.st)]
+PSetTop(s, v) == [s EXCEPT !.st = [@ EXCEPT ![Len(@)] = v]]
+PValue(s, name, opens) ==          \* a value token (scalar or begCollection) with this name
+  IF Len(s.st) = 0 THEN
+       IF name # "" THEN (IF s.g /\ name \notin s.names
+                          THEN [s EXCEPT !.a = TRUE, !.names = @ \cup {name}, !.st = IF opens THEN <<"none">> ELSE <<>>]
+                          ELSE PFail)
+       ELSE (IF s.a THEN [s EXCEPT !.st = IF opens THEN <<"none">> ELSE <<>>] ELSE PFail)
+  ELSE IF name = "" /\ PTop(s) \in {"named", "valued"}
+       THEN (IF opens THEN [PSetTop(s, "valued") EXCEPT !.st = Append(@, "none")] ELSE PSetTop(s, "valued"))
+       ELSE PFail
+PTok(s, tk) ==
+  IF ~s.ok THEN s
+  ELSE CASE tk.t = "delim" -> IF Len(s.st) = 0 THEN [s EXCEPT !.g = TRUE, !.a = FALSE, !.names = {}] ELSE PFail
+         [] tk.t = "val"   -> PValue(s, tk.name, FALSE)
+         [] tk.t = "beg"   -> PValue(s, tk.name, TRUE)
+         [] tk.t = "mem"   -> IF Len(s.st) = 0 THEN PValue(s, tk.name, FALSE)
+                              ELSE IF tk.name = "" /\ PTop(s) \in {"none", "valued"} THEN PSetTop(s, "named") ELSE PFail
+         [] tk.t = "endc"  -> IF Len(s.st) > 0 /\ tk.name = "" /\ PTop(s) \in {"none", "valued"}
+                              THEN [s EXCEPT !.st = SubSeq(@, 1, Len(@) - 1)] ELSE PFail
+         [] OTHER          -> PFail
+RECURSIVE PFold(_,_,_)
+PFold(s, ts, i) == IF i > Len(ts) THEN s ELSE PFold(PTok(s, ts[i]), ts, i + 1)
+PrefixOK(ts) == PFold(PStart, ts, 1).ok
+
 (* Nesting depth of the deepest begCollection in a token stream.           *)
 RECURSIVE DepthFrom(_,_,_,_)
 DepthFrom(ts, i, d, mx) ==
